@@ -22,6 +22,7 @@ ASSUMPTIONS = [
 ]
 
 CAT = ['utf-8', 'utf-16', 'latin-1', 'utf-32-be']
+STALE_KW = [{}]
 LEVEL = {'diffx': 0, '.preamble': 0, '.meta': 0, '.change': 1, '..preamble': 1, '..meta': 1, '..file': 2,
          '...meta': 2, '...diff': 2}
 IDS = list(LEVEL)
@@ -157,10 +158,15 @@ def ob_reader_step(ctx, N, STEP):
     rd._linenum = 7
     ys = []
     wit = lambda m: dict(wit_base, data=model_bytes(m, data))
+    from sx.extract import StaleUse, stale_locals
     try:
         kind, loc = STEP(self=rd, valid_sections=valid, encodings=list(encodings), prev_container_level=level,
-                         _sx_yield_=ys)
+                         _sx_yield_=ys, **STALE_KW[0])
         raised = None
+    except StaleUse:
+        # the loop body looked at a local it had not assigned in this iteration (a value left over from the
+        # previous section): whatever follows depends on the history
+        return viol('stale-local-read', dict(wit(ctx.model()), prio=len(set(chain)) * 2 + 1))
     except PathTimeout:
         raise
     except Exception as e:
@@ -244,6 +250,8 @@ def _extract():
         return None, 'reader state variables renamed: missing %s' % sorted(need - set(info['names']))
     if info['test'] != 'True':
         return None, 'reader loop header changed: while %s' % info['test']
+    from sx.extract import stale_locals
+    STALE_KW[0] = stale_locals(info, need | {'_sx_yield_'})
     pre = ' ; '.join(info['pre'])
     for frag in ('valid_sections = {Section.MAIN}', 'encodings = [None]', 'prev_container_level = 0'):
         if frag not in pre:
@@ -349,6 +357,15 @@ def replay(ob, label, w):
     s, chain, t, own = w['prev'], w['chain'], w['next'], w['own']
     # containers leading to s with the declared encodings that produce `chain`
     calls = []
+    if s is None or not chain:
+        # initial state (nothing read/written yet): the step is the main header itself
+        if w['kind'] == 'reader-step' and 'data' in w:
+            try:
+                recs = list(DiffXReader(io.BytesIO(w['data'])))
+                return {'violated': False}
+            except Exception as e:
+                return {'violated': w['next'] == 'diffx', 'signature': 'inherit:main-header-rejected', 'detail': str(e)}
+        return {'violated': False}
     decl = [chain[0]] + [chain[i] if chain[i] != chain[i - 1] else None for i in range(1, len(chain))]
     if s is not None and LEVEL[s] >= 1:
         calls.append(('new_change', {} if decl[1] is None else {'encoding': decl[1]}))
